@@ -199,8 +199,64 @@ pub struct GdefModel {
     pub mark_attach: Option<ClassDefM>,
     /// mark glyph sets (GDEF 1.2); the coverage format is per set
     pub mark_sets: Vec<Cov>,
-    /// minor version 0, 2 or 3 (3 = with a null ItemVariationStore offset)
+    /// minor version 0, 2 or 3 (3 = with an ItemVariationStore offset, NULL unless `ivs`)
     pub minor: u16,
+    /// ItemVariationStore (GDEF 1.3) that VariationIndex tables of GPOS refer to
+    pub ivs: Option<crate::refmodel::varmodel::IvsModel>,
+}
+
+/// ItemVariationStore, format 1 (OpenType "Font variations common table formats"): region list
+/// + one ItemVariationData subtable per model subtable; the leading columns that need 16 bits
+/// are stored as words, the rest as int8.
+pub fn encode_ivs(m: &crate::refmodel::varmodel::IvsModel) -> Vec<u8> {
+    let axis_count = m.regions.first().map(|r| r.len()).unwrap_or(0);
+    let mut regions = Buf::new();
+    regions.u16(axis_count as u16).u16(m.regions.len() as u16);
+    for r in &m.regions {
+        for a in r {
+            regions.i16(a.start).i16(a.peak).i16(a.end);
+        }
+    }
+    let regions = regions.into_vec();
+    let mut datas: Vec<Vec<u8>> = Vec::new();
+    for (ri, rows) in &m.subtables {
+        let mut words = 0usize;
+        for row in rows {
+            for (k, v) in row.iter().enumerate() {
+                if *v < -128 || *v > 127 {
+                    words = words.max(k + 1);
+                }
+            }
+        }
+        let mut d = Buf::new();
+        d.u16(rows.len() as u16).u16(words as u16).u16(ri.len() as u16);
+        for r in ri {
+            d.u16(*r);
+        }
+        for row in rows {
+            for (k, v) in row.iter().enumerate() {
+                if k < words {
+                    d.i16(*v as i16);
+                } else {
+                    d.u8(*v as i8 as u8);
+                }
+            }
+        }
+        datas.push(d.into_vec());
+    }
+    let mut b = Buf::new();
+    let header = 8 + 4 * datas.len();
+    b.u16(1).u32(header as u32).u16(datas.len() as u16);
+    let mut at = header + regions.len();
+    for d in &datas {
+        b.u32(at as u32);
+        at += d.len();
+    }
+    b.bytes(&regions);
+    for d in &datas {
+        b.bytes(d);
+    }
+    b.into_vec()
 }
 
 impl GdefModel {
@@ -217,7 +273,13 @@ impl GdefModel {
 
 pub fn encode_gdef(g: &GdefModel) -> Result<Vec<u8>, TooBig> {
     let mut t = Tab::new(false);
-    let minor = if !g.mark_sets.is_empty() && g.minor < 2 { 2 } else { g.minor };
+    let minor = if g.ivs.is_some() {
+        3
+    } else if !g.mark_sets.is_empty() && g.minor < 2 {
+        2
+    } else {
+        g.minor
+    };
     t.u16(1).u16(minor);
     t.opt(g.glyph_classes.as_ref().map(encode_classdef));
     t.null(); // attachList
@@ -242,10 +304,18 @@ pub fn encode_gdef(g: &GdefModel) -> Result<Vec<u8>, TooBig> {
             t.off(b.into_vec());
         }
     }
+    let ivs_slot = t.b.len();
     if minor >= 3 {
         t.b.u32(0);
     }
-    t.finish()
+    let mut bytes = t.finish()?;
+    if let Some(ivs) = &g.ivs {
+        // Offset32 from the start of the GDEF header
+        let at = (bytes.len() as u32).to_be_bytes();
+        bytes[ivs_slot..ivs_slot + 4].copy_from_slice(&at);
+        bytes.extend_from_slice(&encode_ivs(ivs));
+    }
+    Ok(bytes)
 }
 
 // ---------------------------------------------------------------------------------------------
@@ -259,6 +329,52 @@ pub struct Value {
     pub yp: i16,
     pub xa: i16,
     pub ya: i16,
+    /// Device / VariationIndex tables behind the four device offsets (xPlaDevice, yPlaDevice,
+    /// xAdvDevice, yAdvDevice); `DevM::None` = NULL offset
+    pub dev: [DevM; 4],
+}
+
+/// What a device offset of a value record or of an anchor (format 3) points at.
+#[derive(Clone, Copy, Debug, Default, PartialEq, Eq)]
+pub enum DevM {
+    /// NULL offset
+    #[default]
+    None,
+    /// hinting Device table: startSize..=endSize, deltaFormat 1-3 (2, 4, 8 bits per size); the
+    /// packed delta words are derived from `fill`
+    Hint { start: u16, end: u16, fmt: u8, fill: u16 },
+    /// VariationIndex table (deltaFormat 0x8000): delta-set outer / inner index into the GDEF
+    /// ItemVariationStore
+    Var { outer: u16, inner: u16 },
+}
+
+/// Device table (hinting deltas, formats 1-3) or VariationIndex table (format 0x8000).
+pub fn encode_device(d: &DevM) -> Vec<u8> {
+    let mut b = Buf::new();
+    match d {
+        DevM::None => {}
+        DevM::Hint { start, end, fmt, fill } => {
+            let bits = match fmt {
+                1 => 2usize,
+                2 => 4,
+                _ => 8,
+            };
+            let count = (*end as usize).saturating_sub(*start as usize) + 1;
+            let words = (count * bits + 15) / 16;
+            b.u16(*start).u16(*end).u16(match fmt {
+                1 => 1,
+                2 => 2,
+                _ => 3,
+            });
+            for w in 0..words {
+                b.u16(fill.wrapping_mul(w as u16 * 2 + 1).wrapping_add(w as u16));
+            }
+        }
+        DevM::Var { outer, inner } => {
+            b.u16(*outer).u16(*inner).u16(0x8000);
+        }
+    }
+    b.into_vec()
 }
 
 impl Value {
@@ -269,39 +385,52 @@ impl Value {
             yp: if fmt & 2 != 0 { self.yp } else { 0 },
             xa: if fmt & 4 != 0 { self.xa } else { 0 },
             ya: if fmt & 8 != 0 { self.ya } else { 0 },
+            dev: [
+                if fmt & 0x10 != 0 { self.dev[0] } else { DevM::None },
+                if fmt & 0x20 != 0 { self.dev[1] } else { DevM::None },
+                if fmt & 0x40 != 0 { self.dev[2] } else { DevM::None },
+                if fmt & 0x80 != 0 { self.dev[3] } else { DevM::None },
+            ],
         }
     }
 }
 
 /// value format: bits 0-3 xPlacement/yPlacement/xAdvance/yAdvance, bits 4-7 the four device
-/// offsets, always written as NULL offsets.
-fn put_value(b: &mut Buf, fmt: u8, v: &Value) {
+/// offsets (relative to the start of the table `t` assembles: the SinglePos / PairPosFormat2
+/// subtable or the PairSet table), NULL unless the value names a Device/VariationIndex table.
+fn put_value(t: &mut Tab, fmt: u8, v: &Value) {
     if fmt & 1 != 0 {
-        b.i16(v.xp);
+        t.i16(v.xp);
     }
     if fmt & 2 != 0 {
-        b.i16(v.yp);
+        t.i16(v.yp);
     }
     if fmt & 4 != 0 {
-        b.i16(v.xa);
+        t.i16(v.xa);
     }
     if fmt & 8 != 0 {
-        b.i16(v.ya);
+        t.i16(v.ya);
     }
     for bit in 4..8 {
         if fmt & (1 << bit) != 0 {
-            b.u16(0);
+            match &v.dev[bit - 4] {
+                DevM::None => t.null(),
+                d => t.off(encode_device(d)),
+            };
         }
     }
 }
 
-/// Anchor table; fmt 1 (x,y), 2 (x,y,anchorPoint), 3 (x,y, two NULL device offsets)
+/// Anchor table; fmt 1 (x,y), 2 (x,y,anchorPoint), 3 (x,y, xDevice and yDevice offsets: NULL
+/// unless `dev` names a Device/VariationIndex table)
 #[derive(Clone, Copy, Debug, PartialEq, Eq)]
 pub struct AnchorM {
     pub x: i16,
     pub y: i16,
     pub fmt: u8,
     pub point: u16,
+    /// format 3 only
+    pub dev: [DevM; 2],
 }
 
 pub fn encode_anchor(a: &AnchorM) -> Vec<u8> {
@@ -311,7 +440,21 @@ pub fn encode_anchor(a: &AnchorM) -> Vec<u8> {
             b.u16(2).i16(a.x).i16(a.y).u16(a.point);
         }
         3 => {
-            b.u16(3).i16(a.x).i16(a.y).u16(0).u16(0);
+            // device offsets are relative to the start of the Anchor table
+            b.u16(3).i16(a.x).i16(a.y);
+            let mut at = 10usize;
+            let tabs: Vec<Vec<u8>> = a.dev.iter().map(encode_device).collect();
+            for d in &tabs {
+                if d.is_empty() {
+                    b.u16(0);
+                } else {
+                    b.u16(at as u16);
+                    at += d.len();
+                }
+            }
+            for d in &tabs {
+                b.bytes(d);
+            }
         }
         _ => {
             b.u16(1).i16(a.x).i16(a.y);
@@ -522,25 +665,25 @@ pub fn encode_subtable(s: &Subtable, share: bool) -> Result<Vec<u8>, TooBig> {
     match s {
         Subtable::Single1 { cov, fmt, value } => {
             t.u16(1).off(encode_coverage(cov)).u16(*fmt as u16);
-            put_value(&mut t.b, *fmt, value);
+            put_value(&mut t, *fmt, value);
         }
         Subtable::Single2 { cov, fmt, values } => {
             t.u16(2).off(encode_coverage(cov)).u16(*fmt as u16).u16(values.len() as u16);
             for v in values {
-                put_value(&mut t.b, *fmt, v);
+                put_value(&mut t, *fmt, v);
             }
         }
         Subtable::Pair1 { cov, fmt1, fmt2, sets } => {
             t.u16(1).off(encode_coverage(cov)).u16(*fmt1 as u16).u16(*fmt2 as u16).u16(sets.len() as u16);
             for set in sets {
-                let mut b = Buf::new();
+                let mut b = Tab::new(share);
                 b.u16(set.len() as u16);
                 for (g2, v1, v2) in set {
                     b.u16(*g2);
                     put_value(&mut b, *fmt1, v1);
                     put_value(&mut b, *fmt2, v2);
                 }
-                t.off(b.into_vec());
+                t.off(b.finish()?);
             }
         }
         Subtable::Pair2 { cov, fmt1, fmt2, cd1, cd2, matrix } => {
@@ -550,8 +693,8 @@ pub fn encode_subtable(s: &Subtable, share: bool) -> Result<Vec<u8>, TooBig> {
             t.u16(matrix.len() as u16).u16(c2 as u16);
             for row in matrix {
                 for (v1, v2) in row {
-                    put_value(&mut t.b, *fmt1, v1);
-                    put_value(&mut t.b, *fmt2, v2);
+                    put_value(&mut t, *fmt1, v1);
+                    put_value(&mut t, *fmt2, v2);
                 }
             }
         }
